@@ -5,7 +5,8 @@
    parent's selection and the step's selection together, for its own object. *)
 From Coq Require Import String List Bool Arith ZArith Lia.
 From GW Require Import Base.Res Base.GoStr Base.Json Gql.Syntax Gql.Spec Gw.Points
-     Proofs.PointsProofs Proofs.StitchSound Proofs.JoinSound.
+     Proofs.PointsProofs.
+From GW Require Import Proofs.StitchSound Proofs.JoinSound.
 Import ListNotations.
 Open Scope string_scope.
 Open Scope list_scope.
@@ -46,7 +47,7 @@ Section Step.
   Variable w : world.
   Variable frags : list fragdef.
   Variable vars : list (string * json).
-  Hypothesis world_atomic : forall o rt c, atomic_f (resolve w vars o rt c).
+  Hypothesis world_atomic : atomic_world w vars.
   Variable l1 l2 : list sel.
   Hypothesis good_sub : good (l1 ++ [id_sel]).
   Hypothesis good_l2 : good l2.
@@ -109,7 +110,8 @@ Section Step.
       (* this visit *)
       assert (Hp1 : holds_joined acc1 p o).
       { unfold holds_joined.
-        exact (stitch_at_point w frags vars world_atomic (S fuel) (Some o) (b_type o) sub1 l2 p acc acc1 good_sub good_l2 compat_12 Hne Hold Hins). }
+        exact (stitch_at_point w frags vars world_atomic (S fuel) (Some o) (b_type o) sub1 l2 p acc acc1
+                 (find_obj_in _ _ _ Hf) good_sub good_l2 compat_12 Hne Hold Hins). }
       (* the points still to visit are untouched *)
       assert (Hrest1 : Forall2 (holds_parent acc1) r os').
       { clear - Hrest Hpr Hins Hne. induction Hrest as [|q o' qs os'' [Hq1 [Hq2 Hq3]] Hr IHr]; [constructor|].
@@ -180,13 +182,13 @@ Example step_example :
   let l2 := [Field "" "photo" [] [] []] in
   let acc := exec 6 w [] [] None "Query" [Field "" "users" [] [] (l1 ++ [id_sel])] in
   let ps := [["users:0#u1"]; ["users:1#u2"]] in
-  ForallOrdPairs diverge ps /\
+  atomic_world w [] /\ ForallOrdPairs diverge ps /\
   Forall2 (holds_parent w [] [] l1 3 acc) ps [u1; u2] /\
   join_all w [] [] l2 3 ps acc =
     Ok (JObj [("users", JArr [JObj [("name", JStr "ann"); ("id", JStr "u1"); ("photo", JStr "a.png")];
                               JObj [("name", JStr "bob"); ("id", JStr "u2"); ("photo", JStr "b.png")]])]).
 Proof.
-  cbv zeta. split; [|split].
+  cbv zeta. split; [apply atomic_world_intro; cbn; repeat constructor|]. split; [|split].
   - constructor; [|constructor; [constructor|constructor]].
     constructor; [|constructor].
     eapply dv_index with (f := "users") (a := 0%Z) (b := 1%Z); [vm_compute; reflexivity|vm_compute; reflexivity|discriminate].
